@@ -1,5 +1,5 @@
 CONSTANTS
-  NShapes = 16
+  NShapes = 17
   Nms = {0, 1, 2}
   Srcs = {"var", "lit", "dflt"}
   Dirs = {0, 1, 2, 3}
